@@ -12,6 +12,9 @@ Definition del_tail (A M B : list cell) : list cell :=
 Lemma del_res_tail : forall A M B, del_res A M B = A ++ del_tail A M B.
 Proof. intros [|a A] [|m0 M] [|b0 B]; reflexivity. Qed.
 
+Lemma del_tail_tail : forall A M B, tail_eq B (del_tail A M B).
+Proof. intros [|a A] [|m0 M] [|b0 B]; cbn; auto. Qed.
+
 Lemma del_tail_bodies : forall A M B, map c_body (del_tail A M B) = map c_body B.
 Proof. intros [|a A] [|m0 M] [|b0 B]; reflexivity. Qed.
 
@@ -129,7 +132,8 @@ Proof.
   split; [reflexivity|]. split; [exact Hwf'|]. split; [|split; [reflexivity|]].
   2:{ intro HS. apply Sep_ins. rewrite <- del_res_tail. now apply Sep_del. }
   destruct (ins_res_shape seps sepsb A (del_tail A M B) fr vs) as (Nc & B' & E & E1 & E2).
-  exists A, B, Nc, B'. repeat split; [exact E|exact E1|]. now rewrite E2, del_tail_bodies.
+  exists A, B, Nc, B'. split; [reflexivity|]. split; [exact E|]. split; [exact E1|].
+  eapply tail_eq_trans; [apply del_tail_tail|exact E2].
 Qed.
 
 (* __delitem__ with an int or a step-1 slice is the slice assignment of the empty list *)
